@@ -117,3 +117,133 @@ def trace_part(run: Run, prop: str):
                        tuple((ev['op'], ev['out'], ev['a']['amt'], ev['a']['p']) for ev in r['steps'] if ev['op'] != 'none'))
                 run.nontrivial.add(hash(key))
     run.need(*NEEDS.get(prop, []))
+
+
+# ---------------------------------------------------------------------------------------------------------------------
+# twin runs (spec/TraceTwin.tla, spec/TraceCopy.tla)
+# ---------------------------------------------------------------------------------------------------------------------
+from . import twins  # noqa: E402
+
+
+def _pairs(run, rng, n, maker, spec_kw, pol_kw, tid0=1, spec_fn=None, autos_fn=None):
+    out = []
+    tid = tid0
+    tries = 0
+    while len(out) < n and tries < 4 * n:
+        tries += 1
+        spec = (spec_fn or games.random_spec)(rng, **spec_kw)
+        if autos_fn:
+            spec['autos'] = autos_fn(rng)
+        spec.setdefault('werr', True)
+        pol = walk.Policy(**pol_kw)
+        p = maker(tid, spec, rng, pol)
+        if p is None:
+            continue
+        for side in ('A', 'B'):
+            if side in p:
+                T.mechanisms(run, p[side])
+        run.nontrivial.add((spec['variant'], spec['n'], tuple(sorted(spec['autos'])), spec['seed']))
+        out.append(p)
+        tid += 1
+    return out
+
+
+ALL_AUTO_NAMES = [a.value for a in games.ALL_AUTOS]
+
+
+def check_C09(run: Run):
+    rng = random.Random(run.seed * 31 + 9)
+    q = run.tier == 'quick'
+    pol = dict(probe_level=0, probe_every=0.0, illegal=0.05, noop=0.03)
+    # every variant, random subsets
+    ps = _pairs(run, rng, 220 if q else 2500, twins.auto_pair, dict(), pol)
+    twins.validate_pairs(run, ps, 'C09_all-variants-random-subsets', 'C09')
+    run.sample({'autos': ps[0]['A']['spec']['autos'], 'automated': T.short_hand(ps[0]['A']), 'manual_twin': T.short_hand(ps[0]['B'])})
+    # custom street lists
+    ps = _pairs(run, rng, 80 if q else 800, twins.auto_pair, dict(), pol, spec_fn=games.random_custom_spec)
+    twins.validate_pairs(run, ps, 'C09_custom-street-lists', 'C09')
+    # subset sweep on three families: quick = 96 seeded subsets, thorough = all 2048
+    subsets = []
+    if q:
+        srng = random.Random(run.seed + 99)
+        subsets = [[a for a in ALL_AUTO_NAMES if srng.random() < 0.5] for _ in range(60)]
+        subsets += [[a] for a in ALL_AUTO_NAMES] + [[b for b in ALL_AUTO_NAMES if b != a] for a in ALL_AUTO_NAMES] + [[], ALL_AUTO_NAMES]
+    else:
+        for m in range(2048):
+            subsets.append([a for j, a in enumerate(ALL_AUTO_NAMES) if m >> j & 1])
+    it = iter(subsets * 3)
+    fams = [['NT', 'PO'], ['F7S', 'FR'], ['F2L3D', 'FB']]
+    ps = []
+    tid = 1
+    for fam in fams:
+        for sub in subsets:
+            spec = games.random_spec(rng, variants=fam, stacks='short', mode='C' if rng.random() < 0.6 else 'T', max_n=4)
+            spec['autos'] = list(sub)
+            spec['werr'] = True
+            p = twins.auto_pair(tid, spec, rng, walk.Policy(**dict(pol, allin=0.2, fold=0.05)))
+            if p:
+                ps.append(p)
+                tid += 1
+                run.nontrivial.add((spec['variant'], spec['n'], tuple(sorted(spec['autos'])), spec['seed']))
+    run.count('automation_subsets_swept', len({tuple(sorted(p['A']['spec']['autos'])) for p in ps}))
+    twins.validate_pairs(run, ps, 'C09_subset-sweep', 'C09')
+    run.rule = ('pairs (automated run, manual twin performing the automated kinds eagerly with default arguments) on the same deck and '
+                'decisions; TLC validates both runs against the model and decides log equality and state equality after every '
+                'decision; non-trivial = distinct (variant, players, automation subset, deck seed)')
+    run.need('automation_subsets_swept', 'cascade_3_kinds_in_one_call', 'hand_finished')
+
+
+def check_C15(run: Run):
+    rng = random.Random(run.seed * 31 + 15)
+    q = run.tier == 'quick'
+    pol = dict(probe_level=0, probe_every=0.0, illegal=0.05, noop=0.03, partial_show=0.15)
+    ps = _pairs(run, rng, 180 if q else 2000, twins.replay_pair, dict(), pol)
+    twins.validate_pairs(run, ps, 'C15_log-replay', 'C15')
+    ps2 = _pairs(run, rng, 60 if q else 600, twins.replay_pair, dict(), pol, spec_fn=games.random_custom_spec)
+    twins.validate_pairs(run, ps2, 'C15_log-replay-custom-streets', 'C15')
+    run.sample({'original': T.short_hand(ps[0]['A']), 'replay_of_its_log': T.short_hand(ps[0]['B'])})
+    # copies
+    recs = []
+    tid = 1
+    while len(recs) < (200 if q else 2000):
+        spec = games.random_spec(rng)
+        spec['werr'] = True
+        r = twins.copy_hand(tid, spec, rng, walk.Policy(probe_level=0, probe_every=0.0, illegal=0.0))
+        if r:
+            recs.append(r)
+            tid += 1
+            run.count('copy_points')
+            run.count('events_after_copy', len(r['steps']) - r['copyAt'])
+            run.count('mirrored_events', sum(1 for ev in r['steps'] if ev.get('mirror')))
+            run.nontrivial.add((spec['variant'], spec['n'], spec['seed'], r['copyAt']))
+    res = tlc.validate_traces(recs, 'C15_copies', prop='C15', module='TraceCopy.tla', cfg='TraceCopy.cfg')
+    run.add_tlc(res['states'], res['transitions'])
+    run.traces += len(recs)
+    run.evaluations += sum(len(r['steps']) for r in recs)
+    by = {r['tid']: r for r in recs}
+    nv = 0
+    for m in res['mismatches']:
+        r = by[m['tid']]
+        what = f"copy hand {m['tid']} step {m['step']} (copy taken after step {r['copyAt']}) clause {m['clause']} op {m['op']} {m['names']} {m['info'][:1000]}"
+        if run.violation(T.signature(m), what, {'kind': 'copy', 'hand': T.short_hand(r, m['step']), 'copyAt': r['copyAt'],
+                                                 'insts': [ev.get('inst') for ev in r['steps'][:m['step']]]}):
+            nv += 1
+    run.part('C15_copies', hands=len(recs), tlc_states=res['states'], mismatches=len(res['mismatches']), violations=nv)
+    run.sample({'copy_after_step': recs[0]['copyAt'], 'hand': T.short_hand(recs[0]),
+                'instance_of_each_step': [ev.get('inst') for ev in recs[0]['steps']]})
+    run.rule = ('(a) pairs (hand, replay of its operation log on a fresh un-automated state): TLC validates both and decides log and '
+                'final-state equality; (c) hands deep-copied at a random step and continued on both instances interleaved: TLC '
+                'validates the acting instance and requires the other one unchanged (projection and digest over all fields)')
+    run.need('copy_points', 'events_after_copy', 'mirrored_events', 'hand_finished')
+
+
+def check_C12(run: Run):
+    trace_part(run, 'C12')
+    rng = random.Random(run.seed * 31 + 12)
+    q = run.tier == 'quick'
+    pol = dict(probe_level=0, probe_every=0.0, illegal=0.0, fold=0.03, raise_=0.2)
+    ps = _pairs(run, rng, 160 if q else 1600, twins.show_pair, dict(stacks='deep'), pol)
+    ps += _pairs(run, rng, 100 if q else 1000, twins.show_pair, dict(stacks='mixed', variants=FLOP + STUD), dict(pol, allin=0.15), tid0=5000)
+    ps += _pairs(run, rng, 80 if q else 800, twins.show_pair, dict(variants=['FO/8', 'F7S/8', 'PO'], boards=(1, 2, 2), mode='C'), pol, tid0=10000)
+    twins.validate_pairs(run, ps, 'C12_auto-vs-show-everything', 'C12')
+    run.need('muck', 'op:HK')
